@@ -871,7 +871,16 @@ func (s *Service) runPipeline(ctx context.Context, rp *runnablePipeline) error {
 				return nil
 			}
 			if err != nil {
-				return cerrors.Errorf("node %s stopped with error: %w", node.ID(), err)
+				err = cerrors.Errorf("node %s stopped with error: %w", node.ID(), err)
+				// Record the reason on the tomb synchronously, before the deferred
+				// nodesWg.Done() above fires. tomb.v2 records a t.Go'd function's
+				// return value only after the function (and its defers) returned,
+				// which races the cleanup goroutine waking from nodesWg.Wait() and
+				// reading rp.t.Err(): it could observe tomb.ErrStillAlive for a
+				// pipeline that died with an error and report it as user-stopped.
+				// Mirrors pkg/lifecycle-poc's runPipeline.
+				rp.t.Kill(err)
+				return err
 			}
 			return nil
 		})
